@@ -158,6 +158,8 @@ def san_sets(tier, seed):
              ("san-epb", B.K("EPb", 2, 0, san=True), "bfs", None) if tier != "quick" else
              ("san-epallb", B.K("EPALLb", 2, 0, san=True), "bfs", None),
              ("san-castle", B.K("CASTLE", 0 if tier == "quick" else 1, 1, san=True), "bfs", None),
+             ("san-epbbw", B.K("EPBBw", 1, 0, san=True), "bfs", None),       # capturers pinned on a diagonal of their king
+             ("san-epbbb", B.K("EPBBb", 1, 0, san=True), "bfs", None),
              ("san-kpk7w", B.K("KPK7w", 0, 3 if tier == "quick" else 0, san=True), "bfs", None),
              ("san-sim-%d" % seed, B.K("ROOTS", 999, 0, san=True), "sim", sim),
              ("san-rand-%d" % seed, B.K("RAND", 999, 8, san=True), "sim", {"num": 20 if tier == "quick" else 300, "depth": 18, "seed": seed})]
